@@ -1395,7 +1395,14 @@ fn worlds(thorough: bool) -> Vec<W> {
         });
     }
     // full-range-only pool: one tick array pair spans every price, so exact-out requests beyond the reserves end in PartialFillError
-    let splash_roots: Vec<(&'static str, Vec<Op>)> = vec![("funded", vec![Op::Inc { pos: 0, liq: BIG, v2: false }, Op::Inc { pos: 1, liq: 7_000_000, v2: true }])];
+    // ... and a thinly funded copy drained by one no-limit swap: the pool then sits exactly on the protocol price bound with zero
+    // liquidity, where the program refuses a further swap in that direction (and the SDK must not quote one)
+    let thin = |a_to_b: bool| vec![Op::Inc { pos: 1, liq: 7_000_000, v2: true }, Op::Swap { a_to_b, exact_in: true, amount: HUGE_IN, lim: Lim::None, v2: a_to_b }];
+    let splash_roots: Vec<(&'static str, Vec<Op>)> = vec![
+        ("funded", vec![Op::Inc { pos: 0, liq: BIG, v2: false }, Op::Inc { pos: 1, liq: 7_000_000, v2: true }]),
+        ("drained-to-min-price", thin(true)),
+        ("drained-to-max-price", thin(false)),
+    ];
     v.push(W { built: stdworlds::build_with_roots(&stdworlds::splash_spec("c20-splash"), &splash_roots), kind: Kind::Std, fees: Fees::default(), depth: (2, 3), weight: 0.5 });
     // tick spacing 1 with every position bound on a tick-array edge: -176 / 263 are the first / last tick of the outermost arrays a
     // swap from tick 0 is given, -88 / 87 / 88 / 175 the first / last ticks of the inner arrays
